@@ -325,6 +325,60 @@ def battery(P, T, tag):
     return out, wire
 
 
+def first_byte_family(P, T, tag):
+    """Every first byte a (S)RTP / (S)RTCP datagram can have - 0x80..0xBF: version 2 x padding x extension x CSRC count 0-15,
+    and version 2 x padding x report count 0-31 - must get through the transport's demultiplexer and arrive intact."""
+    import struct
+    out = []
+    for s in "AB":
+        o = "B" if s == "A" else "A"
+        ssrc = 0xCAFE0000 + ord(s)
+        peer_sender_ssrc = 0x5E5E0000 + ord(o)
+        ssrc2 = 0xBEEF0000 + ord(s)        # a second media stream of the same side (its own SRTP replay window)
+        rep = R.RtcpReceiverInfo(ssrc=peer_sender_ssrc, fraction_lost=1, packets_lost=2, highest_sequence=3, jitter=4, lsr=5, dlsr=6)
+        si = R.RtcpSenderInfo(ntp_timestamp=1 << 40, rtp_timestamp=5, packet_count=6, octet_count=7)
+        rtp_raw, rtp_want, rtcp_raw, rtcp_want = [], [], [], []
+        for b in range(0x80, 0xC0):
+            pad, ext, cc = (b >> 5) & 1, (b >> 4) & 1, b & 0x0F
+            payload = bytes([b, 1, 2, 3, 4, 5, 6, 7])
+            raw = struct.pack("!BBHLL", b, 96, 1000 + b, 160 * b, ssrc2) + b"".join(struct.pack("!L", 0x100 + i) for i in range(cc))
+            if ext:
+                raw += struct.pack("!HH", 0xBEDE, 1) + b"\x00\x00\x00\x00"      # one word of extension padding bytes
+            raw += payload + (b"\x00\x00\x00\x04" if pad else b"")
+            rtp_raw.append(raw)
+            rtp_want.append((96, 1000 + b, 160 * b, ssrc2, [0x100 + i for i in range(cc)], payload, 4 if pad else 0))
+            count = b & 0x1F
+            pkt = R.RtcpRrPacket(ssrc=ssrc, reports=[rep] * count) if count else R.RtcpSrPacket(ssrc=ssrc, sender_info=si, reports=[])
+            raw = bytes(pkt)
+            if pad:
+                words = struct.unpack("!H", raw[2:4])[0] + 1
+                raw = bytes([raw[0] | 0x20, raw[1]]) + struct.pack("!H", words) + raw[4:] + b"\x00\x00\x00\x04"
+            rtcp_raw.append(raw)
+            rtcp_want.append(pkt)
+
+        async def go():
+            for raw in rtp_raw + rtcp_raw:
+                await P.dtls[s]._send_rtp(raw)
+        try:
+            P.loop.run_until(go(), max_time=30.0)
+        except Exception as e:
+            return [("first-byte/send-raises", "%s: %s (%s)" % (type(e).__name__, e, tag))]
+        P.settle()
+        got = P.sink[o]
+        T.transitions += len(rtp_raw) + len(rtcp_raw)
+        got_rtp = [(p.payload_type, p.sequence_number, p.timestamp, p.ssrc, list(p.csrc), bytes(p.payload), p.padding_size) for p in got.rtp]
+        if got_rtp != rtp_want:
+            missing = sorted({0xFF & (w[1] - 1000) for w in rtp_want} - {0xFF & (g[1] - 1000) for g in got_rtp})
+            out.append(("first-byte/rtp", "%s->%s: %d of 64 RTP datagrams (one per first byte 0x80-0xBF) delivered intact; first bytes not delivered: %s (%s)" % (
+                s, o, len([g for g in got_rtp if g in rtp_want]), ["%#x" % m for m in missing][:6], tag)))
+        if len(got.rtcp) != len(rtcp_want) or any(a != b for a, b in zip(got.rtcp, rtcp_want)):
+            bad = [i for i, w in enumerate(rtcp_want) if w not in got.rtcp]
+            out.append(("first-byte/rtcp", "%s->%s: %d RTCP packets delivered of 64 (one per first byte 0x80-0xBF); first bytes not delivered intact: %s (%s)" % (
+                s, o, len(got.rtcp), ["%#x" % (0x80 + i) for i in bad][:6], tag)))
+        got.rtp.clear(), got.rtcp.clear(), got.data.clear()
+    return out
+
+
 def profile_lists():
     profs = list(D.SRTP_PROFILES)
     out = []
@@ -362,6 +416,9 @@ def keys_task(task):
                     v, wire = battery(P, T, "profiles %r / %r, server %s" % names)
                     for clause, detail in v[:2]:
                         T.violation(clause, clause, detail, dict(kind="keys", a=names[0], b=names[1], server=server))
+                    if not v:
+                        for clause, detail in first_byte_family(P, T, "profiles %r / %r, server %s" % names)[:2]:
+                            T.violation(clause, clause, detail, dict(kind="keys", a=names[0], b=names[1], server=server))
                     if not v and flips and la == lb and len(la) == 1:
                         tamper(P, T, wire, names)
                 finally:
